@@ -370,8 +370,12 @@ pub fn run(args: &Args) -> i32 {
     if prog {
         eprintln!("fixture built at {:.1}s", t0.elapsed().as_secs_f64());
     }
+    // Quick tier: every operation is measured and gets its commit-boundary faults (class 3: a handful
+    // per operation, and the class that shows a write that escaped its transaction); the operations of
+    // the quick list additionally get classes 1 and 2. Thorough: every class for every operation.
     let wanted = tier_ops(args.tier);
-    let ops: Vec<&OpDef> = fx.ops.iter().filter(|o| wanted.is_empty() || wanted.contains(&o.name.as_str())).collect();
+    let ops: Vec<&OpDef> = fx.ops.iter().collect();
+    let all_classes = |o: &OpDef| wanted.is_empty() || wanted.contains(&o.name.as_str());
     // measure
     // worker state: one wallet handle per universe, created on first use
     let two_wallets = || -> [Option<Wallet>; 2] { [None, None] };
@@ -405,14 +409,17 @@ pub fn run(args: &Args) -> i32 {
         for k in 1..=m.commits {
             items.push((i, Class::Commit, k));
         }
-        for k in 1..=m.prepares {
-            items.push((i, Class::Prepare, k));
-        }
-        for k in 1..=m.steps {
-            items.push((i, Class::Step, k));
+        if all_classes(op) {
+            for k in 1..=m.prepares {
+                items.push((i, Class::Prepare, k));
+            }
+            for k in 1..=m.steps {
+                items.push((i, Class::Step, k));
+            }
         }
     }
     run.section("operations", json!(table));
+    run.section("operations_with_all_fault_classes", json!(ops.iter().filter(|o| all_classes(o)).map(|o| o.name.clone()).collect::<Vec<_>>()));
     {
         // a capped run should spread over operations and classes: deterministic permutation by seed
         let mut rng = mc_core::SplitMix(args.seed ^ 0xC02);
